@@ -459,6 +459,60 @@ def gen_all(repo, out, bindir):
         t += 'Definition gd_%s : Z := %d.\n' % (k, du[k])
     t += 'Definition gd_BAUD_RATES_A : list Z := %s.\n' % zlist(parse_int(x) for x in array_of(duart, 'BAUD_RATES_A'))
     t += 'Definition gd_BAUD_RATES_B : list Z := %s.\n' % zlist(parse_int(x) for x in array_of(duart, 'BAUD_RATES_B'))
+    # ---- DUART register map: the arms of `match (address - START_ADDR) as u8` in read_byte / write_byte, and for each arm
+    # the channels (PORT_n) it names, the interrupt-status bits it clears (`self.isr &= !X`) and whether it touches ivec
+    def reg_arms(fname):
+        body = find_fn(duart, fname)
+        m = re.search(r'match\s+\(address\s*-\s*START_ADDR\)\s+as\s+u8\s*\{', body)
+        if not m:
+            raise GenError('%s: match (address - START_ADDR) as u8 not found' % fname)
+        i = m.end() - 1
+        inner = body[i + 1:match_delim(body, i)]
+        arms = []
+        k = 0
+        while True:
+            while k < len(inner) and inner[k] in ' \t\r\n,':
+                k += 1
+            if k >= len(inner):
+                break
+            a = inner.find('=>', k)
+            if a < 0:
+                raise GenError('%s: arm without =>' % fname)
+            pat = inner[k:a].strip()
+            b = a + 2
+            while inner[b] in ' \t\r\n':
+                b += 1
+            if inner[b] != '{':
+                raise GenError('%s: arm %s is not a block' % (fname, pat))
+            e = match_delim(inner, b)
+            arms.append((pat, inner[b + 1:e]))
+            k = e + 1
+        if not arms or arms[-1][0] != '_':
+            raise GenError('%s: last arm is not the wildcard' % fname)
+        res = []
+        for pat, ab in arms[:-1]:
+            if pat not in du:
+                raise GenError('%s: arm label %s is not a constant' % (fname, pat))
+            ports = sorted(set(int(x) for x in re.findall(r'\bPORT_(\d)\b', ab)))
+            for q in ports:
+                if ('PORT_%d' % q) not in du or du['PORT_%d' % q] != q:
+                    raise GenError('PORT_%d is not %d' % (q, q))
+            clr = 0
+            for x in re.findall(r'self\.isr\s*&=\s*!\s*(\w+)\s*;', ab):
+                if x not in du:
+                    raise GenError('%s: isr mask %s unknown' % (fname, x))
+                clr |= du[x]
+            res.append((du[pat], ports, clr))
+        return res, arms[-1][1]
+    rd, rd_default = reg_arms('read_byte')
+    wr, wr_default = reg_arms('write_byte')
+    if 'NoDevice' not in rd_default:
+        raise GenError('read_byte: the wildcard arm does not return NoDevice')
+    def arm_list(xs):
+        return '[' + '; '.join('(%d, %s, %d)' % (o, zlist(ps), c) for o, ps, c in xs) + ']'
+    t += '(* (register offset, channels named in the arm, interrupt-status bits the arm clears), in source order *)\n'
+    t += 'Definition gd_read_arms : list (Z * list Z * Z) := %s.\n' % arm_list(rd)
+    t += 'Definition gd_write_arms : list (Z * list Z * Z) := %s.\n' % arm_list(wr)
     write_if_changed(os.path.join(out, 'GenDuart.v'), t)
 
     # ---- C API wrappers
